@@ -1,37 +1,116 @@
-// S-FMT: interpretive model of sprintf/sscanf for %[0][width][l|ll]{x,X} (C11 7.21.6)
-#ifndef VP_NATIVE
+// S-FMT: interpretive model of sprintf/snprintf/sscanf for %[0][width][hh|h|l|ll|j|z]{x,X,u,d} (C11 7.21.6).
+// The model parses the format string the real code passes, so a change of format, length modifier or
+// function (sprintf -> snprintf) in h3ToString/stringToH3 is followed by the encoding.
+// Validated against the sandbox libc by harness/native/fmt_diff.c on every run of C20.
+#ifndef VP_FMT_H
+#define VP_FMT_H
+#if !defined(VP_NATIVE) || defined(VP_FMT_DIFF)
 #include <stdarg.h>
 #include <stddef.h>
 #include <stdint.h>
-static int hexval(char c){ if(c>='0'&&c<='9')return c-'0'; if(c>='a'&&c<='f')return c-'a'+10; if(c>='A'&&c<='F')return c-'A'+10; return -1; }
-int sprintf(char *str, const char *fmt, ...){
-  va_list ap; va_start(ap,fmt); int n=0;
-  for(int p=0; fmt[p]; p++){
-    if(fmt[p]!='%'){ str[n++]=fmt[p]; continue; }
-    p++; int zero=0,width=0,lng=0;
-    if(fmt[p]=='0'){zero=1;p++;}
-    while(fmt[p]>='0'&&fmt[p]<='9'){ width=width*10+(fmt[p]-'0'); p++; }
-    while(fmt[p]=='l'){lng++;p++;}
-    char conv=fmt[p]; __CPROVER_assert(conv=='x'||conv=='X',"S-FMT: only %x/%X modelled");
-    uint64_t v = lng? va_arg(ap,uint64_t) : (uint64_t)va_arg(ap,unsigned int);
-    char tmp[16]; int nd=0; do{ int d=v&15; tmp[nd++]=(char)(d<10?'0'+d:(conv=='x'?'a':'A')+d-10); v>>=4; }while(v);
-    for(int k=nd;k<width;k++) str[n++]= zero?'0':' ';
-    while(nd>0) str[n++]=tmp[--nd];
-  }
-  str[n]=0; va_end(ap); return n;
+#ifdef VP_FMT_DIFF
+#define VPF(n) vpmodel_##n
+#define VPF_ASSERT(c, m) do { if (!(c)) vpmodel_unsupported = 1; } while (0)
+static int vpmodel_unsupported = 0;
+#else
+#define VPF(n) n
+#define VPF_ASSERT(c, m) __CPROVER_assert(c, m)
+#endif
+static int vpf_hexval(char c) {
+    if (c >= '0' && c <= '9') return c - '0';
+    if (c >= 'a' && c <= 'f') return c - 'a' + 10;
+    if (c >= 'A' && c <= 'F') return c - 'A' + 10;
+    return -1;
 }
-int sscanf(const char *s, const char *fmt, ...){
-  va_list ap; va_start(ap,fmt);
-  __CPROVER_assert(fmt[0]=='%',"S-FMT: single conversion"); int p=1,lng=0; while(fmt[p]=='l'){lng++;p++;}
-  __CPROVER_assert((fmt[p]=='x'||fmt[p]=='X')&&fmt[p+1]==0,"S-FMT: only %x modelled");
-  int i=0; while(s[i]==' '||s[i]=='\t'||s[i]=='\n'||s[i]=='\v'||s[i]=='\f'||s[i]=='\r') i++;
-  int neg=0; if(s[i]=='+'||s[i]=='-'){neg=(s[i]=='-');i++;}
-  if(s[i]=='0'&&(s[i+1]=='x'||s[i+1]=='X')&&hexval(s[i+2])>=0) i+=2;
-  if(hexval(s[i])<0){ va_end(ap); return s[i]==0&&i==0?-1:0; }
-  uint64_t v=0; while(hexval(s[i])>=0){ v=(v<<4)|(uint64_t)hexval(s[i]); i++; }
-  if(neg) v=(uint64_t)0-v;
-  if(lng) *va_arg(ap,uint64_t*)=v; else *va_arg(ap,unsigned int*)=(unsigned int)v;
-  va_end(ap); return 1;
+// cap == (size_t)-1: unbounded (sprintf)
+static int vpf_vformat(char *str, size_t cap, const char *fmt, va_list ap) {
+    size_t n = 0;
+#define VPF_PUT(ch) do { if (n + 1 < cap) str[n] = (ch); n++; } while (0)
+    for (int p = 0; fmt[p]; p++) {
+        if (fmt[p] != '%') { VPF_PUT(fmt[p]); continue; }
+        p++;
+        if (fmt[p] == '%') { VPF_PUT('%'); continue; }
+        int zero = 0, width = 0, lng = 0, small = 0;
+        if (fmt[p] == '0') { zero = 1; p++; }
+        while (fmt[p] >= '0' && fmt[p] <= '9') { width = width * 10 + (fmt[p] - '0'); p++; }
+        while (fmt[p] == 'l') { lng++; p++; }
+        if (fmt[p] == 'j' || fmt[p] == 'z') { lng = 2; p++; }
+        while (fmt[p] == 'h') { small++; p++; }
+        char conv = fmt[p];
+        VPF_ASSERT(conv == 'x' || conv == 'X' || conv == 'u' || conv == 'd', "S-FMT: conversion not modelled");
+        uint64_t v; int neg = 0;
+        if (conv == 'd') {
+            int64_t sv = lng ? va_arg(ap, int64_t) : (int64_t)va_arg(ap, int);
+            if (small == 1) sv = (short)sv; else if (small >= 2) sv = (signed char)sv;
+            if (sv < 0) { neg = 1; v = (uint64_t)0 - (uint64_t)sv; } else v = (uint64_t)sv;
+        } else {
+            v = lng ? va_arg(ap, uint64_t) : (uint64_t)va_arg(ap, unsigned int);
+            if (small == 1) v = (unsigned short)v; else if (small >= 2) v = (unsigned char)v;
+        }
+        char tmp[24]; int nd = 0;
+        unsigned base = (conv == 'x' || conv == 'X') ? 16 : 10;
+        do {
+            int d = (int)(v % base);
+            tmp[nd++] = (char)(d < 10 ? '0' + d : (conv == 'x' ? 'a' : 'A') + d - 10);
+            v /= base;
+        } while (v);
+        int len = nd + neg;
+        if (zero) { if (neg) VPF_PUT('-'); for (int k = len; k < width; k++) VPF_PUT('0'); }
+        else { for (int k = len; k < width; k++) VPF_PUT(' '); if (neg) VPF_PUT('-'); }
+        while (nd > 0) { char ch = tmp[--nd]; VPF_PUT(ch); }
+    }
+    if (cap > 0) str[n < cap ? n : cap - 1] = 0;
+#undef VPF_PUT
+    return (int)n;
 }
-
+int VPF(sprintf)(char *str, const char *fmt, ...) {
+    va_list ap; va_start(ap, fmt);
+    int r = vpf_vformat(str, (size_t)-1, fmt, ap);
+    va_end(ap); return r;
+}
+int VPF(snprintf)(char *str, size_t cap, const char *fmt, ...) {
+    va_list ap; va_start(ap, fmt);
+    int r = vpf_vformat(str, cap, fmt, ap);
+    va_end(ap); return r;
+}
+static int vpf_vscan(const char *s, const char *fmt, va_list ap) {
+    VPF_ASSERT(fmt[0] == '%', "S-FMT: single conversion");
+    int p = 1, lng = 0;
+    while (fmt[p] == 'l') { lng++; p++; }
+    if (fmt[p] == 'j' || fmt[p] == 'z') { lng = 2; p++; }
+    char conv = fmt[p];
+    VPF_ASSERT((conv == 'x' || conv == 'X' || conv == 'u' || conv == 'd') && fmt[p + 1] == 0, "S-FMT: scan conversion not modelled");
+    int i = 0;
+    while (s[i] == ' ' || s[i] == '\t' || s[i] == '\n' || s[i] == '\v' || s[i] == '\f' || s[i] == '\r') i++;
+    int neg = 0;
+    int start = i;
+    if (s[i] == '+' || s[i] == '-') { neg = (s[i] == '-'); i++; }
+    int hex = (conv == 'x' || conv == 'X');
+    if (hex && s[i] == '0' && (s[i + 1] == 'x' || s[i + 1] == 'X') && vpf_hexval(s[i + 2]) >= 0) i += 2;
+    int dv = hex ? vpf_hexval(s[i]) : ((s[i] >= '0' && s[i] <= '9') ? s[i] - '0' : -1);
+    if (dv < 0) return (s[i] == 0 && i == start) ? -1 : 0;
+    uint64_t v = 0;
+    for (;;) {
+        dv = hex ? vpf_hexval(s[i]) : ((s[i] >= '0' && s[i] <= '9') ? s[i] - '0' : -1);
+        if (dv < 0) break;
+        v = hex ? ((v << 4) | (uint64_t)dv) : (v * 10 + (uint64_t)dv);
+        i++;
+    }
+    if (neg) v = (uint64_t)0 - v;
+    if (lng) *va_arg(ap, uint64_t *) = v; else *va_arg(ap, unsigned int *) = (unsigned int)v;
+    return 1;
+}
+int VPF(sscanf)(const char *s, const char *fmt, ...) {
+    va_list ap; va_start(ap, fmt);
+    int r = vpf_vscan(s, fmt, ap);
+    va_end(ap); return r;
+}
+#ifndef VP_FMT_DIFF
+int __isoc99_sscanf(const char *s, const char *fmt, ...) {
+    va_list ap; va_start(ap, fmt);
+    int r = vpf_vscan(s, fmt, ap);
+    va_end(ap); return r;
+}
+#endif
+#endif
 #endif
